@@ -33,7 +33,7 @@ def plan(tier):
                 'every (offset, maximum) class; the answer is compared with a shadow model and pages '
                 'with the unpaged answer; a cell is (filter attribute set, requester class, result size '
                 'class, paging class)',
-        'min_monitor': {'locates_compared_with_model': 800, 'pages_compared': 200, 'nonempty_results': 100},
+        'min_monitor': {'locates_on_changed_values': 300, 'changes_between_locates': 200, 'locates_compared_with_model': 800, 'pages_compared': 200, 'nonempty_results': 100},
         'assumptions': ['filters on attributes the server does not store (Activation Date ...) are C13\'s '
                         'concern and are not generated here',
                         'ties in Initial Date may appear in any order that is stable across pages',
